@@ -1,6 +1,7 @@
 package main
 
 import (
+	"sort"
 	"fmt"
 	"go/token"
 	"os"
@@ -120,7 +121,7 @@ func (in *Interp) runHarnessOnce(name string) (status PathStatus, msg string) {
 			}
 		case PathDeadlock:
 			if w.ensureModelQuiet() {
-				in.reportViolation("deadlock", "deadlock", msg, w.model)
+				in.reportViolation("deadlock", deadlockID(msg), msg, w.model)
 			} else {
 				status = PathUnknown
 			}
@@ -165,6 +166,34 @@ func panicID(msg string) string {
 		clean = append(clean, r)
 	}
 	return strings.TrimSpace(string(clean)) + "@" + where
+}
+
+// deadlockID identifies a deadlock by where the target's threads are blocked
+// (operation + file, line numbers dropped; harness files and vpJoin are left
+// out), so that a known deadlock does not hide a different one.
+func deadlockID(msg string) string {
+	var sites []string
+	for _, part := range strings.Split(msg, "[")[1:] {
+		part = strings.TrimSuffix(strings.TrimSpace(part), "]")
+		i := strings.Index(part, " blocked on ")
+		j := strings.LastIndex(part, " at ")
+		if i < 0 || j < i {
+			continue
+		}
+		what, where := part[i+len(" blocked on "):j], part[j+4:]
+		if c := strings.LastIndex(where, ":"); c >= 0 {
+			where = where[:c]
+		}
+		if s := strings.LastIndex(where, "/"); s >= 0 {
+			where = where[s+1:]
+		}
+		if what == "vpJoin" || strings.HasPrefix(where, "zz_h_") {
+			continue
+		}
+		sites = append(sites, what+"@"+where)
+	}
+	sort.Strings(sites)
+	return "deadlock " + strings.Join(sites, " ")
 }
 
 var _ = os.Stderr
